@@ -11,7 +11,7 @@ from typing import Any
 
 from .specgen import Doc, ref
 
-LEAVES = ["str", "int", "num", "bool", "str:date-time", "str:date", "str:uuid", "str:byte", "str:time", "enum_str", "enum_int",
+LEAVES = ["str", "int", "num", "bool", "str:date-time", "str:date", "str:uuid", "str:byte", "str:binary", "str:time", "enum_str", "enum_int",
           "ref_obj", "ref_enum", "ref_alias_dt", "any", "object_bare", "object_addl_true",
           # unions of models with disjoint required keys (so that first-match decoding is unambiguous), flat and nested
           "oneof_refs", "anyof_refs", "anyof_named_union", "oneof_inline_union",
@@ -172,6 +172,8 @@ def response_document(shapes: list[tuple[int, tuple[str, ...]]]) -> Doc:
     schemas = base.doc["components"]["schemas"]
     paths, ops, of = {}, [], {}
     for i, sh in shapes:
+        if sh[-1] == "str:binary" and all(w.startswith("nullable") for w in sh[:-1]):
+            continue      # a bare binary string as the whole body means a byte stream, not a JSON document
         node, e = build(sh, f"r{i}")
         seg = f"s{i}"
         paths[f"/{seg}/res"] = {"get": {"operationId": f"getShape{i}", "tags": ["shapes"], "responses": {
@@ -192,6 +194,8 @@ def request_document(shapes: list[tuple[int, tuple[str, ...]]]) -> Doc:
     schemas = base.doc["components"]["schemas"]
     paths, ops, of = {}, [], {}
     for i, sh in shapes:
+        if sh[-1] == "str:binary" and all(w.startswith("nullable") for w in sh[:-1]):
+            continue
         node, e = build(sh, f"q{i}")
         seg = f"s{i}"
         paths[f"/{seg}/res"] = {"post": {"operationId": f"sendShape{i}", "tags": ["shapes"], "requestBody": {
